@@ -1,4 +1,5 @@
 import SafeNet.Base.MsgPack
+import SafeNet.Base.Sha3
 import SafeNet.Gen.Quote
 /-!
 Model of `ant-evm/src/data_payments.rs` (`PaymentQuote`, `ProofOfPayment`).
@@ -70,6 +71,9 @@ def Quote.hashInput (q : Quote) : List Nat :=
     | .sigBytes => q.sigBytes
     | .pubKey => q.pubKey
     | .signature => q.signature
+
+/-- `PaymentQuote::hash`: `evmlib::cryptography::hash` is Keccak-256 (`Base/Sha3.keccak256`) -/
+def Quote.hash (q : Quote) : List Nat := SafeNet.Sha3.keccak256 q.hashInput
 
 /-- An ideal signature scheme: a signature verifies exactly when it is the signer's signature over that
 very message, and signatures of different (key, message) pairs differ (no forgery, no collision). -/
